@@ -16,7 +16,7 @@ import json
 from . import core
 from .core import cq_bool, cq_list
 
-THEOREMS = ["C04_symbols", "C04_sections", "C04_duplicate", "C04_order", "C04_no_sharing",
+THEOREMS = ["C04_symbols", "C04_sections", "C04_duplicate", "C04_order_partial", "C04_no_sharing_partial",
             "C04_ideal", "C04_visibility_refuted", "C04_dimensions_refuted", "C04_example"]
 PREAMBLE = ("From Coq Require Import String List Bool.\nFrom PV Require Import Model.C04_listener.\n"
             "Import ListNotations.\nOpen Scope string_scope.\n")
@@ -198,6 +198,8 @@ class Gen:
                     els.append({"k": "ext", "path": r.choice([["Base"], ["Pk", "Base"], ["B2"]]), "args": a})
                 elif x < 0.86:
                     f = r.choice(["qual", "qual", "short", "star", "list"])
+                    if dup == "imp" and imp_used and r.random() < 0.7:
+                        f = "qual"
                     self.hit("import_" + f)
                     pk = r.choice([["Lib"], ["Lib", "Sub"]])
                     if f == "star":
@@ -210,7 +212,7 @@ class Gen:
                             self.hit("import_list_3plus")
                         els.append({"k": "imp", "form": f, "path": pk, "names": ns})
                     else:
-                        if dup == "imp" and imp_used and r.random() < 0.5 and f == "qual":
+                        if dup == "imp" and imp_used and r.random() < 0.8 and f == "qual":
                             self.hit("planted_duplicate_import")
                             n = r.choice(imp_used)
                         else:
@@ -770,7 +772,7 @@ def run(ctx):
     pr = Printer(ctx.rng)
     files = corpus()
     n_corpus = len(files)
-    for _ in range(ctx.scaled(400, 6000)):
+    for _ in range(ctx.scaled(400, 3000)):
         files.append(g.file())
     cases = [{"text": t} for t in (PROBE_VIS, PROBE_DIMS, PROBE_IMP)] + [{"text": pr.file(f)} for f in files]
     results = core.run_child(ctx, "c04", cases, timeout=3000)
